@@ -61,7 +61,12 @@ class Session:
         try:
             results = engine.explore(run, max_paths=max_paths)
         except Unsupported as e:
-            raise CheckerError("unsupported construct while verifying %s: %s" % (unit.name, e))
+            # the obligations recorded before the unsupported construct was met stand on their own (each is a path
+            # condition and a goal): they are kept and decided, the unit itself is a checker error
+            err = CheckerError("unsupported construct while verifying %s: %s" % (unit.name, e))
+            err.partial = list(engine.obligations)
+            err.interpreted = set(engine.interpreted)
+            raise err
         # an exception that escapes the harness is one no contract clause permits
         import z3 as _z3
         from .engine import Obligation as _Ob
